@@ -197,14 +197,26 @@ Outcome RunC19(RunCtx& ctx)
 		g.archive = a;
 		g.allowEmptyContainers = a != A_CSV;
 		g.forceContainerRoot = true;
+		{
+			Source twinSource = s;
+			DynNode twin = GenDocument(twinSource, sim::L_DOC, g);
+			(void)SaveDynWith(GetOps(a), twin, sh.bytes[a], sh.options, OutCfg{});
+		}
 		sh.doc[a] = GenDocument(s, sim::L_DOC, g);
-		(void)SaveDynWith(GetOps(a), sh.doc[a], sh.bytes[a], sh.options, OutCfg{});
 		ZooGenCfg zg;
 		zg.archive = a;
 		zg.maxLen = 4;
+		// the shared document is written from a twin generated from the same choices: the shared const object itself is not touched
+		// by anything before the threads run (a first save that "normalises" its source would otherwise hide behind this one)
+		{
+			Source twinSource = s;
+			Zoo twin;
+			GenZoo(twinSource, sim::L_DOC, twin, zg);
+			if (a == A_CSV) EnsureCsvRow(twin);
+			(void)SaveZooWith(GetOps(a), twin, sh.zooBytes[a], sh.options, OutCfg{});
+		}
 		GenZoo(s, sim::L_DOC, sh.zoo[a], zg);
 		if (a == A_CSV) EnsureCsvRow(sh.zoo[a]);
-		(void)SaveZooWith(GetOps(a), sh.zoo[a], sh.zooBytes[a], sh.options, OutCfg{});
 	}
 	std::vector<ThreadWork> work(T);
 	std::string plan;
